@@ -10,14 +10,16 @@ sys.path.insert(0, cfg["root"])
 import jaxtyping  # noqa: E402
 from jaxtyping import install_import_hook, TypeCheckError  # noqa: E402
 import beartype  # noqa: E402,F401
-import verif_spy  # noqa: E402
+# the typechecker packages (verif_spy: c1, verif_spy2: c2) are NOT imported here: the hook names them by a string and
+# they are imported when the first decorated function of a hooked module is defined
+SPIES = {"c1": "verif_spy", "c2": "verif_spy2"}
 
 lookups = []
 import importlib._bootstrap_external as _be  # noqa: E402
 
 hook = None
 if cfg["checker"] != "none" and cfg["hooked"]:
-    hook = install_import_hook(cfg["hooked"], "verif_spy." + cfg["checker"])
+    hook = install_import_hook(cfg["hooked"], SPIES[cfg["checker"]] + "." + cfg["checker"])
 sys.dont_write_bytecode = bool(cfg.get("nowrite"))      # libraries above were imported (and cached) already
 for m in cfg["order"]:
     try:
@@ -28,10 +30,12 @@ for m in cfg["order"]:
 if hook is not None:
     hook.uninstall()
 out = {}
+LOG = [e for s in SPIES.values() if s in sys.modules for e in sys.modules[s].LOG]
+disabled = bool(cfg.get("disabled"))       # JAXTYPING_DISABLE is set in this run's environment
 for m in cfg["modules"]:
     if m in sys.modules:
         mod = sys.modules[m]
-        who = sorted({c for c, mm in verif_spy.LOG if mm == m})
+        who = sorted({c for c, mm in LOG if mm == m})
         try:
             mod.f("not an int")
             rejected = False
@@ -40,7 +44,7 @@ for m in cfg["modules"]:
         instr = who[0] if len(who) == 1 else ("plain" if not who else "both")
         # code loaded from a cache file does not call the spy again only if ... it always does: decoration happens at
         # module execution, not at compile time; so `who` is reliable. Cross-check with behaviour:
-        if rejected != (instr != "plain"):
+        if rejected != (instr != "plain" and not disabled):
             instr += f"/rejects={rejected}"
         if hasattr(mod.f, "__wrapped__") != (instr.split("/")[0] != "plain"):
             instr += "/wrapped-differs"
